@@ -309,4 +309,27 @@ def viewFromDict (j : J) : Option CView := match j with
     | _, _, _, _, _ => none
   | _ => none
 
+/-- Observation(state, reward, end, info) as the coordinator puts it into a response (`observation_as_dict`) -/
+structure CObs where
+  view : CView
+  reward : Int
+  ended : Bool
+  reason : Option String      -- info.end_reason (absent while the episode runs)
+  deriving Repr
+
+def obsAsDict (o : CObs) : J :=
+  .obj [("state", viewAsDict o.view), ("reward", .num o.reward), ("end", .bool o.ended),
+        ("info", .obj (match o.reason with | none => [] | some r => [("end_reason", .str r)]))]
+
+def obsFromDict (j : J) : Option CObs := match j with
+  | .obj m =>
+    match (oget "state" m).bind viewFromDict, oget "reward" m, oget "end" m, oget "info" m with
+    | some v, some (.num r), some (.bool e), some (.obj i) =>
+      match oget "end_reason" i with
+      | none => some ⟨v, r, e, none⟩
+      | some (.str s) => some ⟨v, r, e, some s⟩
+      | some _ => none
+    | _, _, _, _ => none
+  | _ => none
+
 end NSG.Codec
